@@ -491,26 +491,43 @@ def quantiseF32 (fo : FloatOps) (f scale : Fl) (zp : Int) : Except Err Int :=
   | some q => .ok (zp + q)
   | none => .error .value
 
+/-- `NpuActivationOp` of a fused activation function (ordinal in `api.NpuActivationOp`); anything that is neither TANH,
+    SIGMOID, LUT nor of the RELU family raises `UnsupportedFeatureError` -/
+def actOpOf (f : Faf) : Except Err Nat :=
+  match f with
+  | .tanh => .ok 1
+  | .sigmoid => .ok 2
+  | .lut => .ok 3
+  | f => if f.isRelu then .ok 0 else .error .unsupported
+
+/-- a clamp bound with the zero point of the OFM tensor added beforehand:
+    `scale_f32 * quantise_float32(v, scale_f32, zero_point)` -/
+def preAddBound (fo : FloatOps) (s : Fl) (zk : Nat) (z : Int) (v : Option Fl) : Except Err (Option Fl) :=
+  match v with
+  | none => .ok none
+  | some x => match quantiseF32 fo x s z with
+    | .ok q => .ok (some (fo.mulInt s zk q))
+    | .error e => .error e
+
 def createNpuActivation (fo : FloatOps) (op : OpD) (ofmZeroPointIs0 : Bool) : Except Err ActB :=
   match op.activation with
   | none => .ok ⟨0, none, none, 0⟩
-  | some a => do
-    let actOp : Nat ← match a.faf with
-      | .tanh => pure 1
-      | .sigmoid => pure 2
-      | .lut => pure 3
-      | f => if f.isRelu then pure 0 else throw Err.unsupported
-    let mut mn := a.min
-    let mut mx := a.max
-    if actOp = 0 && ofmZeroPointIs0 then
-      match op.ofmQuant with
-      | none => pure ()
-      | some q =>
-        if q.zeroPoint ≠ 0 then
-          let s := q.scale.getD fo.one
-          if let some v := mn then mn := some (fo.mulInt s q.zpKind (← quantiseF32 fo v s q.zeroPoint))
-          if let some v := mx then mx := some (fo.mulInt s q.zpKind (← quantiseF32 fo v s q.zeroPoint))
-    pure ⟨actOp, mn, mx, a.lutIndex⟩
+  | some a =>
+    match actOpOf a.faf with
+    | .error e => .error e
+    | .ok actOp =>
+      if actOp = 0 && ofmZeroPointIs0 then
+        match op.ofmQuant with
+        | none => .ok ⟨actOp, a.min, a.max, a.lutIndex⟩
+        | some q =>
+          if q.zeroPoint ≠ 0 then
+            match preAddBound fo (q.scale.getD fo.one) q.zpKind q.zeroPoint a.min,
+                  preAddBound fo (q.scale.getD fo.one) q.zpKind q.zeroPoint a.max with
+            | .ok mn, .ok mx => .ok ⟨actOp, mn, mx, a.lutIndex⟩
+            | .error e, _ => .error e
+            | _, .error e => .error e
+          else .ok ⟨actOp, a.min, a.max, a.lutIndex⟩
+      else .ok ⟨actOp, a.min, a.max, a.lutIndex⟩
 
 /-! ## `create_padding`, `modify_tile_addresses_for_padding` -/
 
@@ -882,26 +899,38 @@ deriving Repr, DecidableEq
 def quantise (fo : FloatOps) (v : Fl) (hasQuant : Bool) (scale : Option Fl) (zp : Int) : Except Err Int :=
   quantiseF32 fo v (if hasQuant then scale.getD fo.one else fo.one) (if hasQuant then zp else 0)
 
+def quantiseOpt (fo : FloatOps) (v : Option Fl) (hasQuant : Bool) (scale : Option Fl) (zp : Int) : Except Err (Option Int) :=
+  match v with
+  | none => .ok none
+  | some x => match quantise fo x hasQuant scale zp with
+    | .ok q => .ok (some q)
+    | .error e => .error e
+
+def quantiseScalar (fo : FloatOps) (b : BlockB) : Except Err (Option Int) :=
+  match b.scalar, b.ifm2 with
+  | some v, some f2 => quantiseOpt fo (some v) f2.fm.hasQuant f2.scale f2.fm.zeroPoint
+  | some _, none => .error .type
+  | none, _ => .ok none
+
 /-- the C06 record of a built block operation: clamp bounds and scalar quantised the way the register generator does -/
-def toRecord (fo : FloatOps) (b : BlockB) (o : Oracle) : Except Err Built := do
-  let qmin ← match b.act.min with
-    | some v => (quantise fo v b.ofm.fm.hasQuant b.ofm.scale b.ofm.fm.zeroPoint).map some
-    | none => pure none
-  let qmax ← match b.act.max with
-    | some v => (quantise fo v b.ofm.fm.hasQuant b.ofm.scale b.ofm.fm.zeroPoint).map some
-    | none => pure none
-  let qs ← match b.scalar, b.ifm2 with
-    | some v, some f2 => (quantise fo v f2.fm.hasQuant f2.scale f2.fm.zeroPoint).map some
-    | some _, none => throw Err.type
-    | none, _ => pure none
-  pure { op := .block { kind := b.kind, subOp := b.subOp, ifm := b.ifm.fm, ifm2 := b.ifm2.map (·.fm), ifm2Scalar := qs,
-                        ofm := b.ofm.fm, kernel := b.kernel, padding := b.padding, weights := b.weights, biases := b.biases,
-                        activation := some ⟨b.act.opType, qmin, qmax, b.act.lutIndex⟩, blockConfig := b.blockConfig,
-                        rounding := b.rounding, upscale := b.upscale, partKernelFirst := b.partKernelFirst,
-                        reversedOperands := b.reversed, rescaleKind := b.rescaleKind, fusedQuantize := b.fusedQuantize,
-                        oracle := o },
-         ifmScale := b.ifm.scale, ifm2Scale := b.ifm2.bind (·.scale), ofmScale := b.ofm.scale,
-         actMin := b.act.min, actMax := b.act.max, scalar := b.scalar, rescale := b.rescale }
+def toRecord (fo : FloatOps) (b : BlockB) (o : Oracle) : Except Err Built :=
+  match quantiseOpt fo b.act.min b.ofm.fm.hasQuant b.ofm.scale b.ofm.fm.zeroPoint with
+  | .error e => .error e
+  | .ok qmin =>
+    match quantiseOpt fo b.act.max b.ofm.fm.hasQuant b.ofm.scale b.ofm.fm.zeroPoint with
+    | .error e => .error e
+    | .ok qmax =>
+      match quantiseScalar fo b with
+      | .error e => .error e
+      | .ok qs =>
+        .ok { op := .block { kind := b.kind, subOp := b.subOp, ifm := b.ifm.fm, ifm2 := b.ifm2.map (·.fm), ifm2Scalar := qs,
+                             ofm := b.ofm.fm, kernel := b.kernel, padding := b.padding, weights := b.weights, biases := b.biases,
+                             activation := some ⟨b.act.opType, qmin, qmax, b.act.lutIndex⟩, blockConfig := b.blockConfig,
+                             rounding := b.rounding, upscale := b.upscale, partKernelFirst := b.partKernelFirst,
+                             reversedOperands := b.reversed, rescaleKind := b.rescaleKind, fusedQuantize := b.fusedQuantize,
+                             oracle := o },
+              ifmScale := b.ifm.scale, ifm2Scale := b.ifm2.bind (·.scale), ofmScale := b.ofm.scale,
+              actMin := b.act.min, actMax := b.act.max, scalar := b.scalar, rescale := b.rescale }
 
 def buildBlock (fo : FloatOps) (c : StripeD) (arch : ArchD) : Except Err BlockB :=
   match c.op.type.blockType with
